@@ -59,7 +59,7 @@ class Ctx:
     def n(self, quick, thorough):
         return quick if self.tier == "quick" else thorough
 
-    def correspond(self, ops, nontrivial=None, tagger=None, label="corr", canon=None):
+    def correspond(self, ops, nontrivial=None, tagger=None, label="corr", canon=None, canon_model=None, canon_impl=None):
         """run ops through model and implementation, diff answers.
         ops: list of op lines.  nontrivial(line, answer)->bool.  Returns list of (line, impl, model)."""
         ops = list(ops)
@@ -74,6 +74,10 @@ class Ctx:
         for line, a, b in zip(ops, impl, model):
             if canon:
                 a, b = canon(a), canon(b)
+            if canon_model:
+                b = canon_model(b)
+            if canon_impl:
+                a = canon_impl(a)
             tag = tagger(line, b) if tagger else b.split(" ")[0][:24]
             self.hist[f"{label}:{tag}"] += 1
             if nontrivial is None or nontrivial(line, b):
